@@ -75,7 +75,18 @@ def judge_run(g, run, order, by_chrom, named, infos, viol, sit, who):
     for c in order:
         info = infos[c]
         if not info["in_domain"]:
-            sit["out_of_domain"] += 1
+            t1 = per_chrom.get(c)
+            if info["reason"] == "single_node" and t1 and len(t1) == 1:
+                # a chromosome of one segment (chrM-like) has no chain to encode, but it takes part in
+                # "chromosomes receive disjoint BO ranges in the requested chromosome order"
+                (bo1, no1), = t1.values()
+                sit["single_segment_chromosomes"] += 1
+                if bo1 is not None:
+                    if prev_max is not None and bo1 <= prev_max:
+                        viol.append({"kind": "chromosome_ranges", "msg": f"{who}: single-segment chromosome {c} has BO {bo1} but the previous chromosome reached {prev_max}"})
+                    prev_max = bo1
+            else:
+                sit["out_of_domain"] += 1
             continue
         tags = per_chrom.get(c)
         if not tags:
@@ -115,7 +126,7 @@ def run_case(ctx, rng, index, casedir):
         sit["default_chromosome_order_runs"] += 1
     else:
         g = OC.gen_graph(rng, n_chrom=rng.choice([1, 2, 3, 4]) if not big else 1, scaffolds=scaff,
-                         id_style=rng.choice(["s", "s", "name", "num"]))
+                         id_style=rng.choice(["s", "s", "name", "num"]), singletons=rng.choice([0, 0, 0, 1, 2]) if not big else 0)
     gpath = os.path.join(casedir, "in.gfa" + (".gz" if rng.random() < 0.15 else ""))
     g.write(gpath, rng=rng, shuffle=rng.random() < 0.3)
     named = OC.components_of(g)
